@@ -23,14 +23,14 @@ def U(id, entry, **kw):
 FN = ["p_shm_new", "pp_shm_create_handle", "pp_shm_clean_handle", "p_shm_free", "p_shm_take_ownership", "p_shm_lock", "p_shm_unlock", "p_shm_get_address", "p_shm_get_size",
       "p_semaphore_new", "p_semaphore_free", "p_semaphore_acquire", "p_semaphore_release"]
 UNITS = [
-    U("new", "h_new", canaries=3, functions=FN, replay=[{"driver": "C07_replay.c", "mode": "zero_size", "args": [], "only_for": ["p_shm_new fails only on allocation failure", "clean-up step 1"]},
+    U("new", "h_new", canaries=3, functions=FN, replay=[{"driver": "C07_replay.c", "mode": "zero_size", "args": [], "kf_region": True, "only_for": ["p_shm_new fails only on allocation failure", "clean-up step 1"]},
                                                         {"driver": "C07_replay.c", "mode": "free_maplen", "args": [], "only_for": ["records the length that was mapped"]}]),
-    U("new_first_open_race", "h_new_first_open_race", canaries=1, functions=[], loops=LOOPS_PEER, defines=["VERIF_PEER_OPENER"], replay={"driver": "C07_replay.c", "mode": "first_open_race", "args": [], "timeout": 60, "only_for": ["first-open race: every handle", "without faults the creator succeeds"]}),
+    U("new_first_open_race", "h_new_first_open_race", canaries=1, functions=[], loops=LOOPS_PEER, defines=["VERIF_PEER_OPENER"], replay={"driver": "C07_replay.c", "mode": "first_open_race", "args": [], "timeout": 60, "kf_region": True, "only_for": ["first-open race: every handle", "without faults the creator succeeds"]}),
     U("free", "h_free", canaries=2, functions=[], loops={}, replay={"driver": "C07_replay.c", "mode": "free_maplen", "args": []}),
     U("take_ownership_free", "h_take_ownership_free", functions=[], loops={}),
     U("lock_unlock", "h_lock_unlock", canaries=2, functions=[]),
     U("null", "h_null", functions=[]),
-    U("lemma_recovery", "h_lemma_recovery", functions=[], replay={"driver": "C07_replay.c", "mode": "zero_size", "args": [], "only_for": ["p_shm_new fails only on allocation failure", "clean-up step 1"]}),
+    U("lemma_recovery", "h_lemma_recovery", functions=[], replay={"driver": "C07_replay.c", "mode": "zero_size", "args": [], "kf_region": True, "only_for": ["p_shm_new fails only on allocation failure", "clean-up step 1"]}),
 ]
 REQUIRE_CONFIGURED = ["pshm-posix.c", "psemaphore-posix.c"]
 TECHNIQUE = "CBMC obligations and loop contracts over the real pshm-posix.c together with the real psemaphore-posix.c, against ghost models of the POSIX shm and semaphore namespaces, quantified over every namespace state (superset of all crash states) and every EINTR count"
